@@ -64,7 +64,7 @@ func genOpts(t *rapid.T, c tableCons) TableOpts {
 		Format:         rapid.IntRange(minF, 8).Draw(t, "format"),
 		BlockSize:      weighted(t, "block_size", []int{1, 16, 64, 512, 4096}, blockSizeWeights(c)),
 		IndexBlockSize: weighted(t, "index_block_size", []int{1, 64, 4096}, []int{3, 2, 1}),
-		Restart:        rapid.SampledFrom([]int{1, 2, 16}).Draw(t, "restart"),
+		Restart:        rapid.SampledFrom([]int{1, 2, 4, 16}).Draw(t, "restart"),
 		Threshold:      weighted(t, "threshold", []int{0, 1, 50, 100}, []int{5, 1, 1, 1}),
 		Compression:    rapid.SampledFrom(compressionNames).Draw(t, "compression"),
 		Bundle:         rapid.SampledFrom([]int{1, 2, 4, 16, 64}).Draw(t, "bundle"),
@@ -200,8 +200,21 @@ func genUserKeys(t *rapid.T, prefixes []string, c tableCons) []K {
 	if maxSuf == 0 {
 		maxSuf = rapid.SampledFrom([]int{9, 30, 1200}).Draw(t, "max_suffix")
 	}
+	// Sometimes one prefix carries a pile of 17-64 versions: more than the
+	// linear part of NextPrefix steps over before it consults the restart
+	// points, and enough to fill whole restart intervals with one prefix.
+	pile := -1
+	if len(prefixes) > 0 && !c.synSuffix && rapid.IntRange(0, 5).Draw(t, "pile") == 0 {
+		pile = rapid.IntRange(0, len(prefixes)-1).Draw(t, "pile_prefix")
+	}
 	var keys []K
-	for _, p := range prefixes {
+	for pi, p := range prefixes {
+		if pi == pile {
+			for _, s := range distinctDesc(t, "pile_suf", rapid.IntRange(17, 64).Draw(t, "pile_n"), 0, max(maxSuf, 100)) {
+				keys = append(keys, K{P: p, S: s})
+			}
+			continue
+		}
 		if c.synSuffix {
 			keys = append(keys, K{P: p, S: rapid.IntRange(1, maxSuf).Draw(t, "suf")})
 			continue
@@ -224,14 +237,27 @@ func genUserKeys(t *rapid.T, prefixes []string, c tableCons) []K {
 func genPoints(t *rapid.T, o TableOpts, keys []K, c tableCons) []Point {
 	var pts []Point
 	preferSet := rapid.Bool().Draw(t, "prefer_set")
+	perPrefix := map[string]int{}
+	for _, k := range keys {
+		perPrefix[k.P]++
+	}
 	for _, k := range keys {
 		nv := 1
 		if !c.singleVersion && !c.synSuffix {
 			nv = weighted(t, "nver", []int{1, 2, 3, 5}, []int{12, 3, 2, 1})
 		}
+		// a version pile (see genUserKeys) is mostly plain SETs, one per key:
+		// the writer marks restart intervals that hold SETs of one prefix only
+		pileKey := perPrefix[k.P] >= 17 && rapid.IntRange(0, 19).Draw(t, "pile_plain") > 0
+		if pileKey {
+			nv = 1
+		}
 		seqs := distinctDesc(t, "seq", nv, 0, 60)
 		for _, s := range seqs {
 			p := Point{K: k, Seq: uint64(s), Kind: uint8(genKind(t, o, preferSet))}
+			if pileKey {
+				p.Kind = uint8(base.InternalKeyKindSet)
+			}
 			switch base.InternalKeyKind(p.Kind) {
 			case base.InternalKeyKindDelete, base.InternalKeyKindSingleDelete:
 			case base.InternalKeyKindDeleteSized:
